@@ -5,7 +5,7 @@ CONSTANTS
   NodeRefs <- StdNodeRefs
   GhostNodes <- StdGhosts
   QueryTypes <- StdQueryTypes
-  ClassBits <- StdClassBits
+  MaskSets <- StdMasks
   HasSubtypeId <- StdHS
   Dev_IgnoreSubtypeFlag = FALSE
   Dev_DeleteLoop = FALSE
